@@ -1027,4 +1027,261 @@ theorem typeDecl_function_inv (fuel : Nat) (c' : List String) (ts0 ts : List Tok
         · exact h4.2
         · simpa using h5
 
+/-! ## 6. declarations, namespaces, files -/
+
+theorem item_covP : CovP (fun _ => []) item := by
+  intro ts a r h
+  obtain ⟨q, hq, _⟩ := item_sound ts a r h
+  exact ⟨q, hq, Cov.nil _⟩
+
+theorem flagItem_covP : CovP (fun _ => []) flagItem := by
+  intro ts a r h
+  obtain ⟨q, hq, _⟩ := flagItem_sound ts a r h
+  exact ⟨q, hq, Cov.nil _⟩
+
+theorem flatMap_nil_fun {α β : Type} (l : List α) : l.flatMap (fun _ => ([] : List β)) = [] := by
+  induction l with
+  | nil => rfl
+  | cons a l ih => simp
+
+/-- **declarations**: the tokens consumed by `typeDecl` cover the references of the declaration, for all six kinds -/
+theorem typeDecl_cov (e : Env) (ns : List String) (fuel : Nat) (c : List String) (ts0 ts : List Token) (d : Decl)
+    (rest : List Token) (h : typeDecl fuel c ts0 ts = some (d, rest)) :
+    ∃ pre, ts = pre ++ rest ∧ Cov (walkDecl e ns d).refs pre := by
+  cases d with
+  | enum n c' items p =>
+    obtain ⟨_, nt, eq, k, lb, body, rb, rfl, _, _, _, _, _, hm⟩ := typeDecl_enum_inv fuel c ts0 ts n c' items p rest h
+    obtain ⟨pre, rfl, _⟩ := many_cov _ fuel _ item item_covP fuel _ _ _ hm
+    exact ⟨nt :: eq :: k :: lb :: (pre ++ [rb]), by simp, Cov.of_eq_nil rfl _⟩
+  | flags n c' items p =>
+    obtain ⟨_, nt, eq, k, lb, body, rb, rfl, _, _, _, _, _, hm⟩ := typeDecl_flags_inv fuel c ts0 ts n c' items p rest h
+    obtain ⟨pre, rfl, _⟩ := many_cov _ fuel _ flagItem flagItem_covP fuel _ _ _ hm
+    exact ⟨nt :: eq :: k :: lb :: (pre ++ [rb]), by simp, Cov.of_eq_nil rfl _⟩
+  | record n c' fl flp fields dv p =>
+    obtain ⟨_, nt, eq, k, tg, lb, body, rb, dvt, rfl, _, _, _, _, _, _, hm, _⟩ :=
+      typeDecl_record_inv fuel c ts0 ts n c' fl flp fields dv p rest h
+    obtain ⟨pre, rfl, hc⟩ := many_cov _ fuel _ (field fuel) (field_cov e ns fuel) fuel _ _ _ hm
+    refine ⟨nt :: eq :: k :: (tg ++ lb :: (pre ++ rb :: dvt)), by simp, ?_⟩
+    have hr : (walkDecl e ns (.record n c' fl flp fields dv p)).refs = (walkFields e ns fields).refs := by
+      simp [walkDecl, reg1]
+    rw [hr, refs_walkFields]
+    exact (((((hc.right (rb :: dvt)).cons lb).left tg).cons k).cons eq).cons nt
+  | interface n c' mn fl flp methods props p =>
+    obtain ⟨_, nt, eq, mk, k, tg, lb, body, rb, ms, rfl, _, _, _, _, _, _, _, hm, rfl, rfl⟩ :=
+      typeDecl_interface_inv fuel c ts0 ts n c' mn fl flp methods props p rest h
+    obtain ⟨pre, rfl, hc⟩ := many_cov _ fuel _ (member fuel) (member_cov e ns fuel) fuel _ _ _ hm
+    refine ⟨nt :: eq :: (mk ++ k :: (tg ++ lb :: (pre ++ [rb]))), by simp, ?_⟩
+    have hr : (walkDecl e ns (.interface n c' mn fl flp (ms.filterMap (fun | .m x => some x | _ => none))
+        (ms.filterMap (fun | .p x => some x | _ => none)) p)).refs
+        = (walkMethods e ns (ms.filterMap (fun | .m x => some x | _ => none))).refs
+          ++ (walkProps e ns (ms.filterMap (fun | .p x => some x | _ => none))).refs := by
+      simp [walkDecl, reg1]
+    rw [hr]
+    have hc' := hc.perm (refs_members_perm e ns ms)
+    exact ((((((hc'.right [rb]).cons lb).left tg).cons k).left mk).cons eq).cons nt
+  | error n c' codes p =>
+    obtain ⟨_, nt, eq, k, lb, body, rb, rfl, _, _, _, _, _, hm⟩ := typeDecl_error_inv fuel c ts0 ts n c' codes p rest h
+    obtain ⟨pre, rfl, hc⟩ := many_cov _ fuel _ (errCode fuel) (errCode_cov e ns fuel) fuel _ _ _ hm
+    refine ⟨nt :: eq :: k :: lb :: (pre ++ [rb]), by simp, ?_⟩
+    have hr : (walkDecl e ns (.error n c' codes p)).refs = (walkCodes e ns codes).refs := by
+      simp [walkDecl, reg1]
+    rw [hr, refs_walkCodes]
+    exact ((((hc.right [rb]).cons lb).cons k).cons eq).cons nt
+  | function n c' sig p =>
+    obtain ⟨_, nt, eq, ts2, semi, rfl, _, _, hmem, _, _⟩ := typeDecl_function_inv fuel c ts0 ts n c' sig p rest h
+    obtain ⟨pre, rfl, hc⟩ := functionL_cov e ns fuel _ _ _ hmem
+    refine ⟨nt :: eq :: (pre ++ [semi]), by simp, ?_⟩
+    have hr : (walkDecl e ns (.function n c' sig p)).refs = (walkF e ns sig).refs := rfl
+    rw [hr]
+    exact ((hc.right [semi]).cons eq).cons nt
+
+/-- like `CovP`, for results whose references depend on the enclosing namespace: one consumed prefix covers them
+    under every namespace -/
+def CovPN {α : Type} (R : List String → α → List RefSite) (p : P α) : Prop :=
+  ∀ ts a rest, p ts = some (a, rest) → ∃ pre, ts = pre ++ rest ∧ ∀ ns, Cov (R ns a) pre
+
+theorem many_covN {α : Type} (R : List String → α → List RefSite) (fuel : Nat) (stop : List Token → Bool) (p : P α)
+    (hp : CovPN R p) (n : Nat) : CovPN (fun ns l => l.flatMap (R ns)) (many fuel stop p n) := by
+  induction n with
+  | zero => intro ts as rest h; simp [many] at h
+  | succ n ih =>
+    intro ts as rest h
+    simp only [many] at h
+    split at h
+    · simp at h; obtain ⟨rfl, rfl⟩ := h; exact ⟨[], by simp, fun _ => Cov.nil _⟩
+    · cases h1 : p ts with
+      | none => simp [h1] at h
+      | some x =>
+        obtain ⟨a, r⟩ := x
+        simp only [h1, Option.bind_eq_bind, Option.bind_some] at h
+        cases h2 : many fuel stop p n r with
+        | none => simp [h2] at h
+        | some y =>
+          obtain ⟨as', r'⟩ := y
+          simp [h2] at h
+          obtain ⟨rfl, rfl⟩ := h
+          obtain ⟨q, rfl, hq⟩ := hp _ _ _ h1
+          obtain ⟨pre, rfl, hpre⟩ := ih _ _ _ h2
+          exact ⟨q ++ pre, by simp, fun ns => by simpa only [List.flatMap_cons] using (hq ns).append (hpre ns)⟩
+
+theorem refs_walkContents (e : Env) (ns : List String) (cs : List Content) :
+    (walkContents e ns cs).refs = cs.flatMap (fun c => (walkContent e ns c).refs) := by
+  induction cs with
+  | nil => simp [walkContents]
+  | cons c cs ih => simp only [walkContents, Collected.refs_append, ih, List.flatMap_cons]
+
+/-- **namespace contents** (declarations and nested namespaces) -/
+theorem content_cov (e : Env) (fuel : Nat) : CovPN (fun ns c => (walkContent e ns c).refs) (content fuel) := by
+  induction fuel with
+  | zero => intro ts a rest h; simp [content] at h
+  | succ g ih =>
+    intro ts0 a rest h
+    rw [content_succ] at h
+    obtain ⟨cs, h1, _⟩ := comments_sound ts0
+    split at h
+    · next hns =>
+      obtain ⟨nk, hnk, _⟩ := peekKw_inv hns
+      cases hn : nsIdent (comments ts0).2.tail with
+      | none => simp [hn] at h
+      | some y =>
+        obtain ⟨n, ts1⟩ := y
+        obtain ⟨nt, d, hnt, _⟩ := nsIdent_inv hn
+        simp only [hn] at h
+        cases hl : kw? "{" ts1 with
+        | none => simp [hl] at h
+        | some ts2 =>
+          obtain ⟨lb, rfl, _⟩ := kw?_inv hl
+          simp only [hl] at h
+          cases hm : many g (peekKw "}") (content g) g ts2 with
+          | none => simp [hm] at h
+          | some z =>
+            obtain ⟨children, ts3⟩ := z
+            simp only [hm] at h
+            cases hr : kw? "}" ts3 with
+            | none => simp [hr] at h
+            | some ts4 =>
+              obtain ⟨rb, rfl, _⟩ := kw?_inv hr
+              simp only [hr, Option.some.injEq, Prod.mk.injEq] at h
+              obtain ⟨rfl, rfl⟩ := h
+              obtain ⟨pre, rfl, hc⟩ := many_covN _ g _ (content g) ih g _ _ _ hm
+              refine ⟨cs ++ nk :: nt :: lb :: (pre ++ [rb]), by rw [h1, hnk, hnt]; simp, fun ns => ?_⟩
+              dsimp only
+              simp only [walkContent]
+              rw [refs_walkContents]
+              exact ((((hc (ns ++ n.splitOn ".")).right [rb]).cons lb).cons nt).cons nk |>.left cs
+    · cases ht : typeDecl g (comments ts0).1 ts0 (comments ts0).2 with
+      | none => simp [ht] at h
+      | some y =>
+        obtain ⟨d, r⟩ := y
+        simp only [ht, Option.some.injEq, Prod.mk.injEq] at h
+        obtain ⟨rfl, rfl⟩ := h
+        obtain ⟨pre, hpre, _⟩ := typeDecl_cov e [] g _ _ _ _ _ ht
+        refine ⟨cs ++ pre, by rw [List.append_assoc, ← hpre]; exact h1, fun ns => ?_⟩
+        obtain ⟨pre', hpre', hc⟩ := typeDecl_cov e ns g _ _ _ _ _ ht
+        have : pre' = pre := List.append_cancel_right (hpre'.symm.trans hpre)
+        subst this
+        dsimp only
+        simp only [walkContent]
+        exact hc.left cs
+
+theorem load_covP : CovP (fun _ => []) load := by
+  intro ts l rest h
+  unfold load at h
+  split at h
+  · next a b r =>
+    split at h
+    · split at h
+      · simp at h; obtain ⟨_, rfl⟩ := h; exact ⟨[a, b], by simp, Cov.nil _⟩
+      · split at h
+        · simp at h; obtain ⟨_, rfl⟩ := h; exact ⟨[a, b], by simp, Cov.nil _⟩
+        · simp at h
+    · simp at h
+  · simp at h
+
+/-- **files**: all tokens of an accepted token list cover the references of the file's contents -/
+theorem parseFile_cov (e : Env) (toks : List Token) (file : File) (h : parseFile toks = some file) (ns : List String) :
+    Cov (walkContents e ns file.contents).refs toks := by
+  rw [parseFile_eq] at h
+  cases hl : many (8 * toks.length + 16) stopLoads load (8 * toks.length + 16) toks with
+  | none => simp [hl] at h
+  | some x =>
+    obtain ⟨ls, ts1⟩ := x
+    simp only [hl] at h
+    cases hc : many (8 * toks.length + 16) (fun t => t.isEmpty) (content (8 * toks.length + 16)) (8 * toks.length + 16) ts1 with
+    | none => simp [hc] at h
+    | some y =>
+      obtain ⟨cs, ts2⟩ := y
+      simp only [hc] at h
+      split at h
+      · next hemp =>
+        simp only [Option.some.injEq] at h
+        subst h
+        have hts2 : ts2 = [] := by simpa using hemp
+        subst hts2
+        obtain ⟨p1, hp1, _⟩ := many_cov _ _ _ load load_covP _ _ _ _ hl
+        obtain ⟨p2, hp2, hcov⟩ := many_covN _ _ _ _ (content_cov e _) _ _ _ _ hc
+        rw [hp1, hp2, refs_walkContents]
+        exact ((hcov ns).right []).left p1
+      · simp at h
+
+/-! ## 7. H4 -/
+
+theorem nodup_of_nodup_map {α β : Type} (f : α → β) {l : List α} (h : (l.map f).Nodup) : l.Nodup := by
+  unfold List.Nodup at *
+  rw [List.pairwise_map] at h
+  exact h.imp (fun hab heq => hab (congrArg f heq))
+
+/-- **the references of an accepted text start at pairwise distinct positions** -/
+theorem parseText_refStarts_nodup (e : Env) (src : String) (file : File) (h : parseText src = some file)
+    (ns : List String) : ((walkContents e ns file.contents).refs.map rst).Nodup := by
+  unfold parseText at h
+  cases hl : lex src with
+  | none => simp [hl] at h
+  | some toks =>
+    simp only [hl, Option.bind_eq_bind, Option.bind_some] at h
+    exact (parseFile_cov e toks file h ns).nodup (lex_starts_nodup hl)
+
+/-- **H4 is a theorem**: for every text the model accepts, the type references collected from the parsed contents
+    carry pairwise distinct positions — whatever the configuration and the name the file is given. No hypothesis
+    beyond acceptance; inline function types, generic arguments, methods, properties, error-code parameters, named
+    functions and nested namespaces are all covered. -/
+theorem parseText_refPositionsDistinct (cfg : Cfg) (src : String) (file : File) (h : parseText src = some file)
+    (name : String) : RefPositionsDistinct cfg { file := name, contents := file.contents } := by
+  unfold RefPositionsDistinct
+  have hn := parseText_refStarts_nodup { file := name, keys := cfg.keys, defaultDeriving := cfg.defaultDeriving }
+    src file h []
+  have he : (walkContents { file := name, keys := cfg.keys, defaultDeriving := cfg.defaultDeriving } [] file.contents).refs.map rst
+      = ((walkContents { file := name, keys := cfg.keys, defaultDeriving := cfg.defaultDeriving } [] file.contents).refs.map
+          (fun r => (r.file, r.pos))).map (fun p => (p.2.sl, p.2.sc)) := by
+    rw [List.map_map]; rfl
+  rw [he] at hn
+  exact nodup_of_nodup_map _ hn
+
+/-! ## non-vacuity: a text with nested generics, an inline function type, a namespace, an interface whose property
+precedes a method (the AST reorders them), error-code parameters and a named function -/
+
+def exPosSrc : String :=
+  "@import \"a.pydjinni\"\nr = record { a: map<string, list<i32>>; f: (x: i8) -> bool; }\n" ++
+  "namespace n.m { i = interface +cpp { property p: r; m(a: i8, b: list<r>) throws e -> r; }\n" ++
+  "e = error { c(x: i8 y: r); } }\ng = function (q: r) -> r;\n"
+
+/-- test: the text is accepted and has 16 references -/
+example : ((parseText exPosSrc).map (fun f => (walkContents { file := "f", keys := ["cpp"], defaultDeriving := [] } [] f.contents).refs.length))
+    = some 16 := by decide +kernel
+
+example : ∀ f, parseText exPosSrc = some f →
+    RefPositionsDistinct { cwd := default, keys := ["cpp"], defaultDeriving := [], includeDirs := [] } { file := "f", contents := f.contents } :=
+  fun f h => parseText_refPositionsDistinct _ exPosSrc f h "f"
+
 end Pydjinni.Front
+
+section
+open Pydjinni.Front
+#print axioms lex_starts_increasing
+#print axioms parseFile_cov
+#print axioms parseText_refPositionsDistinct
+#print axioms typeDecl_interface_inv
+#print axioms typeDecl_error_inv
+#print axioms typeDecl_function_inv
+#print axioms member_inv
+end
